@@ -33,11 +33,82 @@ TRUSTED = ["struct.pack/unpack '<B' '<H' '<L' '<Q' '!H' 'B' '?' modelled as fixe
 Tx = network.tx
 Block = network.block
 M = network.message
-_fvp = dict(zip(M.pack.__code__.co_freevars, [c.cell_contents for c in M.pack.__closure__]))
-_fvq = dict(zip(M.parse.__code__.co_freevars, [c.cell_contents for c in M.parse.__closure__]))
-S = _fvp["streamer"]
-LAYOUTS = _fvp["message_dict"]
-PARSERS = _fvq["message_parsers"]
+
+
+def _closure_objects(fn, depth=4):
+    """objects reachable from the closure cells of fn (nested functions, dict values, list items), by whatever name"""
+    seen, out = set(), []
+
+    def visit(o, d):
+        if id(o) in seen or d < 0:
+            return
+        seen.add(id(o))
+        out.append(o)
+        try:
+            if callable(o) and getattr(o, "__closure__", None):
+                for c in o.__closure__:
+                    try:
+                        visit(c.cell_contents, d - 1)
+                    except ValueError:
+                        pass
+            elif isinstance(o, dict):
+                for v in o.values():
+                    visit(v, d - 1)
+            elif isinstance(o, (list, tuple)):
+                for v in o:
+                    visit(v, d - 1)
+        except Exception:
+            pass
+    for c in (getattr(fn, "__closure__", None) or ()):
+        try:
+            visit(c.cell_contents, depth)
+        except ValueError:
+            pass
+    return out
+
+
+def _find_streamer():
+    """the Streamer behind network.message: located by type in the closures of pack/parse (no local-variable names);
+    fallback: built through the same public constructors networks/bitcoinish.py uses"""
+    try:
+        from pycoin.serialize.streamer import Streamer as _SB
+        for fn in (M.pack, M.parse):
+            for o in _closure_objects(fn):
+                if isinstance(o, _SB) and "A" in getattr(o, "parse_lookup", {}):
+                    return o
+    except Exception:
+        pass
+    return MPP.standard_streamer(MPP.standard_parsing_functions(Block, Tx))
+
+
+def _find_layouts():
+    """message name -> layout string: the public standard_messages(), else the table held by pack/parse"""
+    try:
+        d = MPP.standard_messages()
+        if isinstance(d, dict) and all(isinstance(k, str) and isinstance(v, str) for k, v in d.items()):
+            return d
+    except Exception:
+        pass
+    for fn in (M.pack, M.parse):
+        for o in _closure_objects(fn):
+            if isinstance(o, dict) and o and all(isinstance(k, str) and isinstance(v, str) for k, v in o.items()):
+                return o
+    return dict(getattr(MPP, "STANDARD_P2P_MESSAGES", {}))
+
+
+S = _find_streamer()
+LAYOUTS = _find_layouts()
+
+
+def split_layout(lay):
+    pairs = [t.split(":") for t in lay.split()]
+    return [p[0] for p in pairs], "".join(p[1] for p in pairs)
+
+
+def parse_fields(name, f):
+    """the field-level parser of a message (no post-processing), leaving the rest of f unread"""
+    names, types = split_layout(LAYOUTS[name])
+    return S.parse_as_dict(names, types, f)
 
 EXN_NAMES = ["E_SCRIPT", "E_VALUE", "E_ENCODING", "E_STRUCT", "E_INDEX", "E_TYPE", "E_ASSERT", "E_ATTR", "E_KEY",
              "E_VALIDATION", "E_BADMERKLE", "E_BADSPEND", "E_NOPOINT", "E_SECRET", "E_PUBPAIR", "E_DER", "E_OVERFLOW", "E_OTHER"]
@@ -63,9 +134,8 @@ def _o_parse(parse_f, canon_f):
 
 def _o_mbpost(b):
     f = io.BytesIO(b)
-    pairs = [t.split(":") for t in LAYOUTS["merkleblock"].split()]
     try:
-        d = guarded(lambda: S.parse_as_dict([p[0] for p in pairs], "".join(p[1] for p in pairs), f))
+        d = guarded(lambda: parse_fields("merkleblock", f))
         d = guarded(lambda: MPP.post_unpack_merkleblock(d, f))
     except (Exception, ImplTimeout) as e:
         return _exn_code(e)
@@ -914,7 +984,7 @@ def chk_roundtrip(name, kw):
             return {"kind": "field-differs", "field": fname, "got": cv(got)[:200], "want": cvw(want)[:200]}
     # nothing left unread
     f = io.BytesIO(b)
-    PARSERS[name](f)
+    parse_fields(name, f)
     rest = f.read()
     if rest:
         return {"kind": "bytes-left", "left": len(rest)}
